@@ -20,6 +20,8 @@ def run(ck, fb):
     r12l(ck, fb)
     r12m(ck, fb)
     r12o(ck, fb)
+    r12p(ck, fb)
+    r12q(ck, fb)
     ck.borrow('rules.c11', {'R11g': 'R12n'}, 'a connection that ends takes its ephemeral instances with it only if every instance it registered is in its owner set')
     ck.borrow('rules.c13', {'R13b': 'R12i'}, 'a live gRPC or persistent registration must not be expired by a stale heartbeat entry queued for the same address')
 
@@ -509,3 +511,67 @@ def r12o(ck, fb, R='R12o'):
         ck.require(absent or empty, R, 'get_bool_from_string:default-only-for-absent-or-empty', b.where(bb),
                    'the default decides the flag for a text that was given (%s): a value such as "False" or "FALSE" becomes the default instead of false'
                    % [cfg.fmt_atom(a) for a in atoms], 'default used only for an absent / empty value')
+
+
+def r12p(ck, fb, R='R12p'):
+    ck.rule(R, '"a newly registered instance carries the address, ephemeral flag, enabled flag and weight it was registered with" - also when the '
+               'address was registered before by ANOTHER client: Service::update_instance keeps the stored enabled / ephemeral / weight where the '
+               'update tag of the request does not name them (the tag protects values set from the console, and the gRPC handlers derive it from '
+               '"differs from the SDK default"). Each of these three copies of a stored value over the incoming one, on the tagged-update path, is '
+               'decided together with a comparison of the incoming client id with the stored one: a registration that changes the owner of the '
+               'record is that client\'s registration. Otherwise B registers (weight 1, enabled, persistent) over A\'s (5, disabled, ephemeral) '
+               'and owns a record with none of its values - not returned by any query, and removed when B\'s connection ends')
+    from rn.facts import op_place
+    b = ck.body(SV + 'update_instance', R)
+    if not b:
+        return
+
+    def cmp_ids(term):
+        nm = cfg.callee_name(term) or ''
+        if not re.search(r'::(eq|ne)$', nm):
+            return False
+        fs = [cfg.origin_fields(b, a)[-1:] for a in term.get('args') or []]
+        return fs.count(['client_id']) == 2
+    t = Taint(b, call_src=cmp_ids)
+    n = 0
+    for s0 in b.calls(r'ToOwned>::clone_into$|Clone>::clone_from$'):
+        src = cfg.origin_fields(b, s0.args[0])[-1:]
+        if src not in (['enabled'], ['ephemeral'], ['weight']):
+            continue
+        atoms = cfg.guard_atoms(b, s0.bb)
+        tagged = any(a[0] == 'field' and a[1][-1:] == src and a[2] is False and len(a[1]) >= 1 for a in atoms)
+        if not tagged:
+            continue        # the "tag names nothing" path (heartbeat): everything is kept by design
+        n += 1
+        dom = cfg.dominating_edges(b, s0.bb)
+        ok = any(t.op_tainted(t0['discr']) for (sb, d0, lab0, t0) in dom)
+        ck.require(ok, R, 'update_instance:stored-%s-kept-only-for-the-same-owner' % src[0], s0.where(),
+                   'the stored %s is copied over the registered one whenever the tag does not name it, whoever registers: a client that registers an '
+                   'address another client held gets that client\'s %s (A: weight 5, disabled, ephemeral; B registers weight 1, enabled, persistent and '
+                   'owns (5, disabled, ephemeral): not listed, and removed with B\'s connection)' % (src[0], src[0]), 'decided with a comparison of the two client ids')
+    ck.floor(R, 'tag-controlled copies of a stored flag in update_instance', n, 3)
+
+
+def r12q(ck, fb, R='R12q'):
+    ck.rule(R, '"no deregistered instance is included": a deregistration a client asks for (NamingCmd::Delete; the HTTP DELETE is routed by the hash of '
+               'the service) can hit the COPY of an instance that another node holds - a gRPC instance lives on the node of its connection. '
+               'NamingActor::remove_instance announces a removal only for instances this node holds itself, so in the Delete arm of the NamingCmd '
+               'handler the stored copy is looked up, and when it belongs to another node (is_from_cluster) and the request is not itself a peer\'s '
+               'notification, InstanceDelayNotifyRequest::RemoveInstance is sent for it. Otherwise the holder keeps the instance and its 12 s '
+               'reconciliation restores it on every node although the DELETE was answered "ok"')
+    hs = [b for b in fb.bodies.values() if re.search(r'NamingActor as actix::Handler<rnacos::naming::core::NamingCmd>>::handle$', b.name)]
+    ck.floor(R, 'NamingCmd handler', len(hs), 1)
+    for h in hs:
+        ck.analysed(h)
+        arm = [(s0, a0) for (s0, m0, v0, a0) in util.sends(h, r'InstanceDelayNotifyRequest$', 'RemoveInstance')
+               if any(v == 'Delete' for (adt, v) in util.variant_guards(h, s0.bb))]
+        t = Taint(h, call_src=lambda term: (cfg.callee_name(term) or '').endswith('NamingActor::get_instance'))
+        ok = any(t.op_tainted(o) for (s0, a0) in arm for o in (a0['ops'] if a0 else s0.args[1:]))
+        tested = any((cfg.callee_name(s1.term) or '').endswith('is_from_cluster') and any(v == 'Delete' for (adt, v) in util.variant_guards(h, s1.bb))
+                     for s1 in h.sites if s1.callee) or \
+            any(any(x.calls(r'is_from_cluster$') for x in util.region(fb, cb, 1)) for s1 in h.sites if s1.callee and any(v == 'Delete' for (adt, v) in util.variant_guards(h, s1.bb))
+                for cb in util.closures_passed(fb, h, s1.term))
+        ck.require(bool(arm) and ok and tested, R, 'Delete:copy-of-another-node-is-announced', (arm[0][0].where() if arm else h.where()),
+                   'a client-requested deregistration that removes this node\'s copy of an instance held by another node is not announced to the cluster: '
+                   'the holder hands the instance out again and its reconciliation restores it everywhere (2 nodes, gRPC client on node 2, DELETE '
+                   'through node 1: svc-2, svc-5, svc-7 still return 10.0.0.7:8001 on both nodes)', 'RemoveInstance sent for the stored copy')
